@@ -488,7 +488,7 @@ class Checker:
         self.n_b = self.n_k = self.n_v = self.n_w = 0
         self.bad = {'B': [], 'K': [], 'V': [], 'W': [], 'S': []}
         self.n_s1 = 0
-        self.known = {Q4: 0, Q5: 0, Q6: 0, Q7: 0}
+        self.known = {Q5: 0, Q6: 0}
         self.known_example = {}
         self.compl_hist = {}
         self.mode_hist = {}
@@ -512,33 +512,16 @@ class Checker:
 
     def classify_many(self, items):
         """goja/refSem disagreements [(case, goja, ref)]: explained by a defect still listed as `known`?  signature or None.
-        All auxiliary runs (program rewritten so that one specific defect cannot fire) go through one batch."""
-        aux = []
-        for (c, g, m) in items:
-            aux.append(Case(strip_dead(c.prog), c.mode, c.fatal, c.deco))
-            aux.append(Case(c.prog, 'F', c.fatal, c.deco) if c.mode == 'G' else Case(('skip',), 'F'))
-        go = self.goja_b(aux) if aux else []
-        mo = self.model_lines([a.bline() for a in aux[1::2]]) if aux else []
+        (The repaired findings — catch/finally re-arm, uncatchable iterator close, generator return through finally,
+        dummy-mode dead code, returning-mode native throw — are NOT recognised any more: they alarm if they come back.)"""
         out = []
-        for k, (c, g, m) in enumerate(items):
-            g_sd, g_f, m_f = go[2 * k], go[2 * k + 1], mo[k]
+        for (c, g, m) in items:
             sig = None
-            if c.mode == 'S' and value_only(g, m) and (has_do(c.prog) or has(c.prog, 'brk') or has(c.prog, 'cont')):
+            if c.mode == 'S' and value_only(g, m) and (has(c.prog, 'brk') or has(c.prog, 'cont')):
                 # Q5: same log, both complete normally, only the script's completion VALUE differs, and the program
-                # has a do-while or a break/continue: goja's completion-value bookkeeping (lastProducingIdx, clearResult)
+                # has a break/continue: goja's completion-value bookkeeping (lastProducingIdx, clearResult)
                 # is static and does not follow abrupt exits nested inside statements (see known finding)
                 sig = Q5
-            elif c.mode == 'S' and strip_dead(c.prog) != c.prog and g_sd == m:
-                # Q4 (root cause reported under C02): dead code after a branch statement is compiled in dummy mode and
-                # its break/continue patch locations land in REAL blocks (Go panic or overwritten instructions);
-                # the disagreement disappears when the never-executed statements are removed
-                sig = Q4
-            elif c.mode == 'S' and strip_dead(c.prog) != c.prog and value_only(g_sd, m):
-                sig = Q4 + '+' + Q5           # dead code removed: only the completion value still differs (break/continue present)
-            elif c.mode == 'G' and has(c.prog, 'ret') and throwing_iterator(c.prog) and g_f == m_f and m_f == m:
-                # Q7: generator resumed by return(); an exception raised through a Go panic (here: the iterator's
-                # next()/return()) is caught by a handler of the generator; the plain-function version agrees
-                sig = Q7
             elif c.mode in 'FG' and return_value_only(g, m) and ret_in_finally(c.prog):
                 # Q6: same log, both return, only the returned VALUE differs, and some finally block contains a return
                 sig = Q6
